@@ -289,7 +289,9 @@ def collides(p, boxes, slack):
 
 
 def judge_path(op_line, out_line):
-    """path oracle (independent of OMPL): start, bounds, goal, dense re-validation of every edge at the resolution"""
+    """path oracle (independent of OMPL): start, bounds, valid vertices, goal; every edge: gap form (no invalid stretch
+    longer than 2 x the resolution length, exact segment/box intersection) and, for the planners that assemble paths from
+    individually validated motions, the strict form (every j/n subdivision point valid, i.e. checkMotion passes again)"""
     if out_line is None:
         return "no output (crash / sanitizer abort / timeout / deadlock)", {}
     if not out_line.startswith("planner "):
@@ -332,17 +334,85 @@ def judge_path(op_line, out_line):
         diff = b2f(d["diff"])
         if abs(diff - gd) > 1e-9 * max(1.0, gd):
             return "approximate solution reports difference %.9g but ends %.9g from the goal" % (diff, gd), info
+    worst = 0.0
     for i in range(n - 1):
         a, b = pts[i], pts[i + 1]
         dist = math.dist(a, b)
-        nd = max(1, int(math.ceil(dist / L)))
+        # gap form (every planner; C01's reading of the property): no invalid stretch longer than twice the resolution
+        # length.  Exact: the segment is straight and the obstacles are boxes, so the invalid set is a union of
+        # parameter intervals (slab method); path vertices are valid (checked above), so a stretch ends inside its edge.
+        for t0, t1 in invalid_intervals(a, b, P["boxes"], eps):
+            length = (t1 - t0) * dist
+            worst = max(worst, length / L)
+            if length > 2 * L:
+                return ("gap: edge %d (%r -> %r) is inside an obstacle for t in [%.6f, %.6f], a stretch of %.6g = %.2f x the "
+                        "resolution length %.6g (allowed: 2 x)" % (i, a, b, t0, t1, length, length / L, L)), info
+        if P["planner"] in NOT_STRICT:
+            continue
+        # strict form (planners that assemble paths from individually validated motions): checkMotion passes again,
+        # i.e. every j/n subdivision point of the edge is valid
+        # validSegmentCount exactly as the library computes it: RealVectorStateSpace::distance accumulates the squared
+        # differences in index order and takes sqrt (math.dist rounds differently by an ulp, which flips the ceil when an
+        # edge is an exact multiple of the resolution length — e.g. pRRT's range = 10 x resolution length here)
+        nd = max(1, int(math.ceil(rv_distance(a, b) / L)))
         for j in range(nd + 1):
             t = j / nd
             q = tuple(a[k] + (b[k] - a[k]) * t for k in range(dim))
             if collides(q, P["boxes"], eps) or any(x < -eps or x > 1 + eps for x in q):
-                return ("edge %d (%r -> %r) is invalid at t=%d/%d: %r lies %s" %
+                return ("strict: edge %d (%r -> %r) is invalid at t=%d/%d: %r lies %s" %
                         (i, a, b, j, nd, q, "inside an obstacle" if collides(q, P["boxes"], eps) else "out of bounds")), info
+    info["worst_invalid_stretch_in_L"] = worst
     return None, info
+
+
+# Planners held only to the gap form (and to valid vertices), as in checks/c01.py NOT_STRICT: their reported path is not
+# assembled from individually validated motions.
+NOT_STRICT = {
+    "APS": "AnytimePathShortening reports paths re-interpolated, shortcut and hybridized by PathSimplifier / PathHybridization: "
+           "vertices are new interpolated states and an edge's own j/n points are not the ones that were queried (C01 NOT_STRICT)",
+}
+
+
+def rv_distance(a, b):
+    """RealVectorStateSpace::distance, operation for operation (bit-identical doubles)"""
+    acc = 0.0
+    for k in range(len(a)):
+        diff = a[k] - b[k]
+        acc += diff * diff
+    return math.sqrt(acc)
+
+
+def invalid_intervals(a, b, boxes, slack):
+    """merged parameter intervals [t0, t1] of the segment a->b lying inside some (slightly shrunk, closed) box"""
+    out = []
+    for lo, hi in boxes:
+        t0, t1 = 0.0, 1.0
+        ok = True
+        for k in range(len(lo)):
+            l, h = lo[k] + slack, hi[k] - slack
+            d = b[k] - a[k]
+            if d == 0.0:
+                if a[k] < l or a[k] > h:
+                    ok = False
+                    break
+                continue
+            u, v = (l - a[k]) / d, (h - a[k]) / d
+            if u > v:
+                u, v = v, u
+            t0, t1 = max(t0, u), min(t1, v)
+            if t0 > t1:
+                ok = False
+                break
+        if ok:
+            out.append((t0, t1))
+    out.sort()
+    merged = []
+    for t0, t1 in out:
+        if merged and t0 <= merged[-1][1]:
+            merged[-1] = (merged[-1][0], max(merged[-1][1], t1))
+        else:
+            merged.append((t0, t1))
+    return merged
 
 
 # ------------------------------------------------------------------------------------------ TSan reports
@@ -719,6 +789,12 @@ def run(ck):
             ck.count("planner-status:%s" % info.get("status"))
             if info.get("nstates"):
                 ck.count("planner-paths-judged")
+                ck.count("planner-paths-judged:%s" % ("gap+vertex" if op_line.split()[1] in NOT_STRICT else "strict+gap"))
+                w = info.get("worst_invalid_stretch_in_L")
+                if w:
+                    ck.count("paths-with-an-invalid-stretch-below-2L")
+                    ck.extra_cov["worst_invalid_stretch_in_resolution_lengths"] = max(
+                        ck.extra_cov.get("worst_invalid_stretch_in_resolution_lengths", 0.0), round(w, 3))
             P = parse_planner_line(op_line)
             ck.count("perturb-permille:%d" % P["permille"])
         else:
